@@ -395,8 +395,7 @@ class Oracle:
         def roots_of(rel, col):
             if rel.kind == "table": return {("col", rel.name, col)}
             if col in rel.cols:
-                r = rel.cols[col]
-                return r if r else {("col", rel.name, col)}
+                return rel.cols[col]  # possibly empty: a constant defined in the subquery depends on no base-table column
             return {("col", rel.name, col)}
         def resolve(c):
             if isinstance(c, Star):
